@@ -249,6 +249,8 @@ pub struct SupSpec {
     /// keep events on runtime paths (/proc, libs, ...) in the log
     pub log_all: bool,
     pub extra_env: Vec<(String, String)>,
+    /// connect the child's stdout to this path (e.g. /dev/full) instead of a capture file
+    pub stdout_to: Option<PathBuf>,
 }
 
 #[derive(Clone, Debug, Default)]
@@ -270,6 +272,8 @@ pub struct SupOut {
     pub hang_state: Option<String>,
     /// at a timeout: per live thread (role, scheduler state, current syscall if inside one)
     pub hang_threads: Vec<(Role, String, Option<Sys>)>,
+    /// at a timeout: CPU time (user + system, all threads) the traced process had consumed, in ms
+    pub hang_cpu_ms: u64,
     /// total number of system calls seen (all threads, all paths)
     pub total_calls: u64,
     /// unknown syscalls seen on sandbox paths
@@ -277,6 +281,16 @@ pub struct SupOut {
     /// roles by thread index
     pub roles: Vec<Role>,
     pub setup_error: Option<String>,
+}
+
+/// utime + stime of a process (all its threads) from /proc/<pid>/stat, in milliseconds
+fn proc_cpu_ms(pid: i32) -> u64 {
+    let s = std::fs::read_to_string(format!("/proc/{}/stat", pid)).unwrap_or_default();
+    let rest = s.rsplit(')').next().unwrap_or("");
+    let f: Vec<&str> = rest.split_whitespace().collect();
+    let ticks = f.get(11).and_then(|x| x.parse::<u64>().ok()).unwrap_or(0) + f.get(12).and_then(|x| x.parse::<u64>().ok()).unwrap_or(0);
+    let hz = unsafe { libc::sysconf(libc::_SC_CLK_TCK) };
+    ticks * 1000 / std::cmp::max(hz, 1) as u64
 }
 
 impl SupOut {
@@ -1225,7 +1239,10 @@ impl Sup {
         let errp = spec.out_dir.join("stderr");
         let outp = spec.out_dir.join("stdout");
         let errf = File::create(&errp).expect("stderr file");
-        let outf = File::create(&outp).expect("stdout file");
+        let outf = match &spec.stdout_to {
+            Some(p) => std::fs::OpenOptions::new().write(true).open(p).expect("stdout target"),
+            None => File::create(&outp).expect("stdout file"),
+        };
         let mut c = Command::new(&spec.bin);
         crate::run::child_env(&mut c);
         for (k, v) in &spec.extra_env {
@@ -1321,6 +1338,7 @@ impl Sup {
                 if e == libc::EINTR {
                     if Instant::now() > deadline && !out.timed_out {
                         out.timed_out = true;
+                        out.hang_cpu_ms = proc_cpu_ms(pid);
                         out.hang_state = Some(sup.describe_threads());
                         out.hang_threads = sup
                             .threads
